@@ -23,7 +23,7 @@ RULE = (
     "fingerprint contents; on each: +, sum(), -, * for scalars {0,1,2,-1,0.5,float64(3)} and rejected "
     "{True,'2',None,array}, ==/!= against copy and 6 perturbations, incompatible operands, "
     ".bins[e]/.patches[e] for every int in [-n,n-1], out-of-range ints, every slice with "
-    "start,stop in {None,-n..n}, iteration; commuting with sample_patch_sum/sample. "
+    "start,stop in {None,-n..n}, stepped slices (step 2,3; omitted bins merge into the preceding selected bin), iteration, loops over a retained indexer after abandoned loops; commuting with sample_patch_sum/sample. "
     "Non-trivial: container with >= 2 bins or an auto container (every case has >= 2 patches); "
     "distinct: (type, B, N, auto, members)."
 )
@@ -244,6 +244,8 @@ def run_case(case):
         oor = [n, n + 1, -n - 1]
         ends = [None] + list(range(-n, n + 1))
         slices = [slice(a, b, st) for a in ends for b in ends for st in (None, 1)]
+        # non-contiguous selections (documented: omitted bins are merged into the preceding selected bin)
+        slices += [slice(a, b, st) for st in (2, 3) for a in (None, 0, 1, 2) for b in (None, n, n - 1)]
         return ints, oor, slices
 
     ints, oor, slices = index_exprs(B)
@@ -296,6 +298,18 @@ def run_case(case):
     rec.expect_true("bins-iter", lambda: iterate(x.bins, B, C.sel_bins),
                     "iteration over .bins does not yield bins 0..n-1")
 
+    def iterate_retained(make, n, sel):
+        # one retained indexer object: a loop that is abandoned (peek, break) must not shift the next loop
+        indexer = make()
+        next(iter(indexer))
+        for _ in indexer:
+            break
+        first = iterate(indexer, n, sel)
+        return first and iterate(indexer, n, sel)
+
+    rec.expect_true("bins-iter", lambda: iterate_retained(lambda: x.bins, B, C.sel_bins),
+                    "a loop over a retained .bins indexer after an abandoned loop does not yield bins 0..n-1")
+
     # ---- patches indexing
     if not is_data:
         ints, oor, slices = index_exprs(N)
@@ -326,6 +340,8 @@ def run_case(case):
                              f".patches[{e}] with {N} patches")
         rec.expect_true("patches-iter", lambda: iterate(x.patches, N, C.sel_patches),
                         "iteration over .patches does not yield patches 0..n-1")
+        rec.expect_true("patches-iter", lambda: iterate_retained(lambda: x.patches, N, C.sel_patches),
+                        "a loop over a retained .patches indexer after an abandoned loop does not yield patches 0..n-1")
 
     # ---- get_array(): the documented (bins, patches, patches) view, read-only in effect
     if T in ("PatchedCounts", "PatchedSumWeights", "NormalisedCounts"):
